@@ -370,11 +370,12 @@ Definition so_read (sd : side) (o : nat) (c : nat) : M val :=
       end
   end.
 
-(* attribute assignment (_SO_setValue, eager): UPDATE, then cache the value *)
+(* attribute assignment (_SO_setValue, eager): UPDATE, then cache the value -- unless the instance is
+   flagged expired (it reloads the whole row on the next read) *)
 Definition so_set (sd : side) (o : nat) (c : nat) (v : val) : M unit :=
   i <- gets (fun s => get_inst s sd o) ;;
   db_update sd (i_id i) c v ;;;
-  upd_inst sd o (set_val c v).
+  if i_expired i then ret tt else upd_inst sd o (set_val c v).
 
 (* sync *)
 Definition so_sync (sd : side) (o : nat) : M unit :=
